@@ -329,6 +329,7 @@ class Sim(object):
                 self.violate('O5.exc', op, {'class': cls, 'msg': str(val)})
         elif kind == 'cancel':
             self.count('cancelled')
+            self.module_check(op, 'after-cancel')
         if ctx.recv_inf is not None and kind in ('cancel', 'budget'):
             # a documented mutator was interrupted: its receiver may be half-set, which C20 does
             # not forbid, and no caller would go on using it -> the object leaves the pool
